@@ -268,7 +268,7 @@ func TestC36(t *testing.T) {
 		seed := rnd.Int63()
 		eng := host.Engines[b%len(host.Engines)]
 		jobs = append(jobs, jobT{BatchCase{Job: execgen.BatchJob{Batch: batch, Engine: int(eng), Goroutines: g, Seed: seed, Repeat: evid.N(3, 6),
-			Warm: fx7 && eng != host.Interp}, GoMaxProcs: gmp}})
+			Warm: fx7 && eng != host.Interp}, GoMaxProcs: gmp, SkipFX8: fx8}})
 	}
 	type outT struct {
 		br  *execgen.BatchResult
